@@ -42,7 +42,7 @@ func TestRaceWorker(t *testing.T) {
 	start := time.Now()
 	deadline := start.Add(budget)
 	_ = flag.Set("rapid.nofailfile", "true")
-	gens := []string{"C14", "C05", "C13", "C06", "C12", "C14"}
+	gens := []string{"C14", "C05", "C13", "C06", "C12", "C14", "C15"}
 	write := func() {
 		out.WallS = time.Since(start).Seconds()
 		b, _ := json.Marshal(out)
